@@ -18,7 +18,7 @@ EXPLANATION = (
 ASSUMPTIONS = ["pika::detail::unlock_guard unlocks in its constructor and locks in its destructor (thread_support/unlock_guard.hpp)",
                "notifiers acquire the user lock before notifying (user contract stated in the property)"]
 THOROUGH_CONFIGS = [["-UNDEBUG", "-DPIKA_DEBUG"]]
-FLOORS = {"C07.R1": 8, "C07.R2": 3, "C07.R3": 6, "C07.R4": 4, "C07.R5": 10}
+FLOORS = {"C07.R1": 8, "C07.R2": 3, "C07.R3": 6, "C07.R4": 4, "C07.R5": 10, "C07.R6": 5}
 
 INTERNAL = "data->mtx_"
 
@@ -33,6 +33,7 @@ def run(rep, tier):
     rep.rule("C07.R3", "K7: cv_status::timeout iff reason == timeout (over the computed return set); predicate forms return true only after pred()")
     rep.rule("C07.R4", "K2: notify_one/notify_all lock the internal mutex and pass the lock by move")
     rep.rule("C07.R5", "detail::condition_variable hand-shake (same rules as C02.R1/R2)")
+    rep.rule("C07.R6", "K2/K8 plain-OS-thread agent (default_agent), the other implementation of the agent interface the condition variable parks waiters on: resume()/abort() deliver on every path (set running_, notify); they wait for running_ == false, so every member a waiter can be parked in - suspend() and the timed sleep_for/sleep_until - establishes running_ = false (and announces it) before blocking")
 
     D = facts(rep, driver("c07_condvar.cpp"), [r"^pika::condition_variable(_any)?::(wait|wait_until|notify_one|notify_all)$"])
     CVF = cvdetail.load(rep)
@@ -231,3 +232,42 @@ def run(rep, tier):
 
     cvdetail.wait_rules(rep, "C07.R5", CVF)
     cvdetail.notify_rules(rep, "C07.R5", CVF)
+
+    # ---- R6: the agent of plain OS threads
+    from engine.kinds import bypass_path
+    DA = facts(rep, lib("execution_base", "src/this_thread.cpp"), [r"default_agent::(suspend|resume|abort|sleep_for|sleep_until)$"])
+    da = {f.qname.rsplit("::", 1)[-1]: f for f in DA.fns if f.parent == -1}
+    for need in ("suspend", "resume", "abort", "sleep_for", "sleep_until"):
+        if need not in da:
+            raise AnalysisBroken("default_agent::%s not found" % need)
+    waits_for_not_running = {}
+    for nm in ("resume", "abort"):
+        f = da[nm]
+        deliver = lambda e: e.get("k") == "call" and callee_short(e) in ("notify_one", "notify_all") and "suspend_cv_" in P(e.get("recv"))
+        setrun = lambda e: e.get("k") == "write" and P(e["lhs"]) == "this->running_" and T(strip(e.get("rhs"))) == "true"
+        byp = bypass_path(f, deliver)
+        byp2 = bypass_path(f, setrun)
+        if byp is None and byp2 is None and any(deliver(e) for _, _, e in f.all_events()):
+            rep.ok("C07.R6", f, "default_agent::%s sets running_ and notifies the suspended thread on every path" % nm)
+        else:
+            rep.bad("C07.R6", f, f.loc, "agent-%s-filtered" % nm, "default_agent::%s can return without waking the target (path %s): a resume that arrives before the "
+                    "target has parked itself is dropped - the waiter's queue entry is already consumed, nothing will ever wake it" % (nm, byp or byp2))
+        lams = [l for l in DA.fns if l.parent == f.id]
+        waits_for_not_running[nm] = any(e.get("k") == "return" and T(strip(e.get("e"))) in ("!this->running_", "this->running_ == false") for l in lams for _, _, e in l.all_events())
+    blocking = lambda e: e.get("k") == "call" and (callee_short(e) in ("wait", "wait_for", "wait_until") and "_cv_" in P(e.get("recv")) or
+                                                    callee_of(e) in ("std::this_thread::sleep_for", "std::this_thread::sleep_until"))
+    # the members the condition variable parks a waiter in: suspend() (wait) and sleep_until() (wait_until; wait_for
+    # is converted to an absolute time first) - sleep_for alone is never the target of a resume
+    for nm in ("suspend", "sleep_until"):
+        f = da[nm]
+        bl = [(b, i, e) for b, i, e in f.all_events() if blocking(e)]
+        if not bl:
+            raise AnalysisBroken("default_agent::%s: blocking call not recognised" % nm)
+        clears = lambda e: e.get("k") == "write" and P(e["lhs"]) == "this->running_" and T(strip(e.get("rhs"))) == "false"
+        if not any(waits_for_not_running.values()) or all(precedes_on_all_paths(f, clears, (b, i)) for b, i, e in bl):
+            rep.ok("C07.R6", f, "default_agent::%s announces running_ = false before it blocks (resume() waits for that)" % nm)
+        else:
+            rep.bad("C07.R6", f, loc_of(bl[0][2]), "timed-wait-not-resumable:" + nm, "default_agent::%s blocks without clearing running_, but resume()/abort() wait for running_ == false: "
+                    "notify_one / notify_all on a plain OS thread that is in a timed condition-variable wait blocks the notifier forever while it holds the condition "
+                    "variable's internal lock (the waiter then deadlocks on that lock at its deadline)" % nm)
+
